@@ -211,6 +211,35 @@ func CheckC10(run *ev.Run) {
 					}
 				}
 			}
+			// two specs out of three carry EMPTY items in the media-type and tag lists of their operations (and of the document):
+			// the generator prunes them for its own use; the embedded documents must still list them where the input does
+			if i%3 != 2 {
+				dm["produces"] = []interface{}{"", "application/json"}
+				if paths, ok := dm["paths"].(map[string]interface{}); ok {
+					k := 0
+					for _, pk := range sortedKeysOf(paths) {
+						if item, ok := paths[pk].(map[string]interface{}); ok {
+							for _, mk := range sortedKeysOf(item) {
+								if op, ok := item[mk].(map[string]interface{}); ok && op["responses"] != nil {
+									switch k % 3 {
+									case 0:
+										op["produces"] = []interface{}{"", "text/plain", "application/json"}
+									case 1:
+										op["consumes"] = []interface{}{"application/json", "", "application/xml"}
+									}
+									if tags, ok := op["tags"].([]interface{}); ok {
+										op["tags"] = append([]interface{}{""}, tags...)
+									} else {
+										op["tags"] = []interface{}{"", "items"}
+									}
+									k++
+								}
+							}
+						}
+					}
+					st["specs-with-empty-list-items"]++
+				}
+			}
 			doc, _ = json.MarshalIndent(dm, "", " ")
 		}
 		mode := modes[i%len(modes)]
